@@ -305,7 +305,7 @@ var def = pbt.Def[Case]{Name: "budget", Gen: gen, Run: judge}
 
 func TestProp(t *testing.T) {
 	outerT = t
-	pbt.Check(t, run, def, 12000, 1500000)
+	pbt.Check(t, run, def, 12000, 800000)
 }
 
 func TestReplay(t *testing.T) {
